@@ -5,8 +5,10 @@
 (* State machine with one action per public call of data_space.DataSpace    *)
 (* (insert, execute, remove, retrieve, describe, keys); both space kinds    *)
 (* (DataModelSpace over frames, DBSpace over a database) are instances.     *)
-(* A table value is abstracted to a sequence of small integers (the cells   *)
-(* of its single column x); pipelines executed in the space are             *)
+(* A table value is abstracted to [cells |-> the cells of its column x,      *)
+(* wide |-> whether it has a second column y] (two schemas, so that a       *)
+(* space's table DESCRIPTIONS can go stale); pipelines are built from       *)
+(* describe(k) and executed in the space:                                   *)
 (*   <<"copy", k>>        the table stored under k                          *)
 (*   <<"inc", k>>         .extend({'x': 'x + 1'})                            *)
 (*   <<"cat", k1, k2>>    k1.concat_rows(k2)                                 *)
@@ -43,11 +45,12 @@ Init == store = [k \in AllKeys |-> NONE] /\ ntmp = 0 /\ nops = 0 /\ hist = <<>>
 Pipes == {<<"copy", k>> : k \in Keys} \cup {<<"inc", k>> : k \in Keys}
          \cup {<<"cat", k1, k2>> : k1 \in Keys, k2 \in Keys}
 Reads(p) == IF p[1] = "cat" THEN {p[2], p[3]} ELSE {p[2]}
-CanEval(p, s) == Reads(p) \subseteq Dom(s)
+\* concat_rows needs the same columns on both sides
+CanEval(p, s) == Reads(p) \subseteq Dom(s) /\ (p[1] = "cat" => s[p[2]].wide = s[p[3]].wide)
 Eval(p, s) ==
   CASE p[1] = "copy" -> s[p[2]]
-    [] p[1] = "inc"  -> [i \in 1..Len(s[p[2]]) |-> s[p[2]][i] + 1]
-    [] p[1] = "cat"  -> s[p[2]] \o s[p[3]]
+    [] p[1] = "inc"  -> [cells |-> [i \in 1..Len(s[p[2]].cells) |-> s[p[2]].cells[i] + 1], wide |-> s[p[2]].wide]
+    [] p[1] = "cat"  -> [cells |-> s[p[2]].cells \o s[p[3]].cells, wide |-> s[p[2]].wide]
 
 \* ---------------------------------------------------------------- automatic keys
 \* reference: an automatic key is a key not in use (the smallest free generated name from the counter on)
@@ -90,7 +93,8 @@ Execute(p, k, ow) ==
   IN /\ nops < MaxOps
      /\ (auto => n <= MaxOps + 1)
      /\ store' = ns
-     /\ ntmp' = IF auto THEN n ELSE ntmp
+     \* a pipeline that cannot be built from the current descriptions never reaches execute(): no key is consumed
+     /\ ntmp' = IF auto /\ ok THEN n ELSE ntmp
      /\ Log(<<"execute", p, k, ow>>, ok, ns, IF ok THEN key ELSE NONE)
 
 Remove(k) ==
@@ -108,7 +112,7 @@ Retrieve(k) ==
 Next ==
   \/ \E k \in Keys \cup {NONE}, v \in Vals, ow \in BOOLEAN : Insert(k, v, ow)
   \/ \E p \in Pipes, k \in Keys \cup {NONE}, ow \in BOOLEAN :
-        /\ (CanEval(p, store) => Len(Eval(p, store)) <= MaxLen)
+        /\ (CanEval(p, store) => Len(Eval(p, store).cells) <= MaxLen)
         /\ Execute(p, k, ow)
   \/ \E k \in Keys : Remove(k)
   \/ \E k \in Keys : Retrieve(k)
